@@ -70,34 +70,36 @@ func neq(l, r *number) *number {
 	return bton(ntof(l) != ntof(r))
 }
 
-func add(l, r *number) *number {
-	return &number{
-		ival:    l.ival + r.ival,
-		fval:    l.fval + r.fval,
-		isFloat: l.isFloat || r.isFloat,
+// arith applies a binary arithmetic operator. Two integers give an integer (computed on the
+// integer values); as soon as one operand is a float both are promoted (ntof) and the result is a
+// float. The result therefore never depends on how an operand was produced: only ival is
+// meaningful for integers and only fval for floats.
+func arith(l, r *number, iop func(a, b int64) int64, fop func(a, b float64) float64) *number {
+	if l.isFloat || r.isFloat {
+		return &number{fval: fop(ntof(l), ntof(r)), isFloat: true}
 	}
+	i := iop(l.ival, r.ival)
+	return &number{ival: i, fval: float64(i)}
+}
+
+func add(l, r *number) *number {
+	return arith(l, r, func(a, b int64) int64 { return a + b }, func(a, b float64) float64 { return a + b })
 }
 
 func mul(l, r *number) *number {
-	return &number{
-		ival:    l.ival * r.ival,
-		fval:    l.fval * r.fval,
-		isFloat: l.isFloat || r.isFloat,
-	}
+	return arith(l, r, func(a, b int64) int64 { return a * b }, func(a, b float64) float64 { return a * b })
 }
 
+// div divides l by r; dividing two integers by zero is the caller's error to report
+// (see isIntDivByZero), it must not reach the integer division below.
 func div(l, r *number) *number {
-	return &number{
-		ival:    l.ival / r.ival,
-		fval:    l.fval / r.fval,
-		isFloat: l.isFloat || r.isFloat,
-	}
+	return arith(l, r, func(a, b int64) int64 { return a / b }, func(a, b float64) float64 { return a / b })
+}
+
+func isIntDivByZero(l, r *number) bool {
+	return !l.isFloat && !r.isFloat && r.ival == 0
 }
 
 func sub(l, r *number) *number {
-	return &number{
-		ival:    l.ival - r.ival,
-		fval:    l.fval - r.fval,
-		isFloat: l.isFloat || r.isFloat,
-	}
+	return arith(l, r, func(a, b int64) int64 { return a - b }, func(a, b float64) float64 { return a - b })
 }
